@@ -53,7 +53,9 @@ Join = _mk('Join', 'left right kind on')    # kind: 'inner' | 'left'
 
 # statements
 SelectItem = _mk('SelectItem', 'expr alias text')
-Select = _mk('Select', 'distinct items into from_ where group_by having order_by limit offset')
+# lock: None | 'share' | 'update' -- the locking clause; the engine itself ignores it (every statement runs alone), the
+# overlapping-requests layer (harness/batchdb/race.py) reads it
+Select = _mk('Select', 'distinct items into from_ where group_by having order_by limit offset lock')
 Insert = _mk('Insert', 'table cols rows select odku ignore')
 Update = _mk('Update', 'from_ sets where')
 Delete = _mk('Delete', 'table alias where')
